@@ -217,7 +217,13 @@ func runCurve() {
 			if guard(tr, "EdPrivateKeyToX25519", func() { xpriv = x25519.EdPrivateKeyToX25519(priv) }) {
 				continue
 			}
-			tr.Emit(map[string]interface{}{"op": "edpriv2x", "hs": hx.Ints(hs[:]), "out": hx.Ints(xpriv), "cfg": cfg})
+			keyCopy := append([]byte{}, priv...)
+			tr.Emit(map[string]interface{}{"op": "edpriv2x", "hs": hx.Ints(hs[:]), "out": hx.Ints(xpriv), "keyIntact": bytes.Equal(priv, keyCopy) && bytes.Equal(priv[:32], seed), "cfg": cfg})
+			// the same key object again: a conversion must not consume or alter the key
+			var xpriv2 []byte
+			if !guard(tr, "EdPrivateKeyToX25519", func() { xpriv2 = x25519.EdPrivateKeyToX25519(priv) }) {
+				tr.Emit(map[string]interface{}{"op": "edpriv2x", "hs": hx.Ints(hs[:]), "out": hx.Ints(xpriv2), "keyIntact": bytes.Equal(priv[:32], seed), "cfg": cfg})
+			}
 			var err error
 			guard(tr, "X25519", func() { xpub, err = x25519.X25519(xpriv, x25519.Basepoint) })
 			guard(tr, "EdPublicKeyToX25519", func() { viaPub, ok = x25519.EdPublicKeyToX25519(ed25519.PublicKey(priv[32:])) })
